@@ -499,6 +499,10 @@ func loadSeeds(r *vh.Run, repo, cache string) []seed {
 	skip := emptied()
 	maxSize := int64(r.Pick(130_000, 400_000))
 	dirs := []string{filepath.Join(repo, "pkg/testdata"), filepath.Join(repo, "pkg/testdata/pdf20"), filepath.Join(repo, "pkg/samples/bookmarks"), filepath.Join(repo, "pkg/samples/form"), filepath.Join(repo, "pkg/samples/annotations")}
+	if sigDirs, _ := filepath.Glob(filepath.Join(repo, "pkg/samples/signatures/*")); len(sigDirs) > 0 {
+		// the shipped signed samples are also ordinary inputs of every operation (write path of signature dictionaries)
+		dirs = append(dirs, sigDirs...)
+	}
 	os.MkdirAll(cache, 0o755)
 	for _, dir := range dirs {
 		ents, _ := os.ReadDir(dir)
